@@ -95,6 +95,23 @@ func Scenarios2() []History {
 	)
 	add("first-named-provider-ineligible-at-pause-and-skip", smallParams(), map[string]int64{"c1": 6}, ops...)
 
+	// a time promotion and a volume promotion in force together: the price is the product, truncated once
+	ops = []Ev{
+		{Name: "Define", Signer: "o1", Svc: "s1"},
+		{Name: "Bind", Signer: "o1", Svc: "s1", Prov: "p1", Deposit: 60, DShape: "ok", Qos: 1,
+			Pr: MPricing{Price: 10, PT: []PromoT{{S: 1000, E: 1004, D: 25}}, PV: []PromoV{{V: 1, D: 90}}}},
+		{Name: "Bind", Signer: "o1", Svc: "s1", Prov: "p2", Deposit: 60, DShape: "ok", Qos: 1,
+			Pr: MPricing{Price: 7, PT: []PromoT{{S: 1000, E: 1004, D: 50}}, PV: []PromoV{{V: 1, D: 90}, {V: 2, D: 30}}}},
+		{Name: "Call", Signer: "c1", Svc: "s1", Provs: []string{"p1", "p2"}, Cap: 10, Timeout: 1, Rep: true, Freq: 1, Total: 7},
+	}
+	for h := int64(1); h <= 7; h++ {
+		ops = append(ops, eb(1),
+			Ev{Name: "Respond", Signer: "p1", Rid: rid(1, h, h, 0), Kind: "valid"},
+			Ev{Name: "Respond", Signer: "p2", Rid: rid(1, h, h, 1), Kind: "valid"})
+	}
+	ops = append(ops, eb(1), Ev{Name: "Withdraw", Signer: "o1"})
+	add("both-promotions-truncate-once", smallParams(), map[string]int64{"c1": 200}, ops...)
+
 	return hs
 }
 
